@@ -27,10 +27,12 @@ def expected_tx(x, d):
     return NS.phys(nh, pipe, False)
 
 
-def o1_sender(ctx, lx, ld, n, frag, fail):
+def o1_sender(ctx, lx, ld, n, frag, fail, mlvl=False):
     from circuitpython_nrf24l01.network.structs import RF24NetworkHeader
     clock = fresh_env(ctx)
     radio, node, x = build_node(ctx, clock, "net", lx)
+    if mlvl:
+        node.multicast_level = ctx.int("multicast_level", 0, 4)
     d = sym_addr(ctx, "D", ld)
     ctx.assume(d != x)
     node.fragmentation = frag
@@ -77,10 +79,12 @@ def o1_sender(ctx, lx, ld, n, frag, fail):
     ctx.reached()
 
 
-def o2_router(ctx, role, lvl, lf, ld, n):
+def o2_router(ctx, role, lvl, lf, ld, n, mlvl=False):
     clock = fresh_env(ctx)
     radio, node, addr = build_node(ctx, clock, role, lvl)
     ctx.assume(addr != 0o4444)
+    if mlvl:  # the node subscribes to another level's multicasts: nothing about unicast forwarding may change
+        node.multicast_level = ctx.int("multicast_level", 0, 4)
     link, outcome = per_packet_link(ctx, radio, always=True)
     f, d = sym_addr(ctx, "F", lf), sym_addr(ctx, "D", ld)
     ctx.assume(s_and(d != addr, f != d, f != addr))
@@ -242,6 +246,10 @@ def jobs(tier):
         if tier == "quick" and i % 9:
             continue
         out.append(Job("O2-router-step", o2_router, dict(role=r, lvl=l, lf=lf, ld=ld, n=(0, 24, 2)[i % 3]), cost=10, shards=2))
+    for r, l, lf, ld in (("net", 1, 0, 3), ("routing", 2, 4, 1), ("net", 2, 1, 4), ("mesh", 3, 0, 4), ("net", 0, 2, 3), ("routing", 1, 3, 2)):
+        out.append(Job("O2-router-step-multicast-level-overridden", o2_router, dict(role=r, lvl=l, lf=lf, ld=ld, n=2, mlvl=True), cost=12, shards=2))
+    for lx, ld in ((0, 2), (1, 3), (2, 4), (3, 1), (1, 2)):
+        out.append(Job("O1-sender-step-multicast-level-overridden", o1_sender, dict(lx=lx, ld=ld, n=25, frag=True, fail=False, mlvl=True), cost=6))
     for r in ("net", "mesh", "master"):
         for l in ((0,) if r == "master" else range(0 if r == "net" else 1, 5)):
             for n in ((0, 24, 25, 144) if tier == "quick" else lens):
